@@ -2166,7 +2166,20 @@ class WBEMConnection:  # pylint: disable=too-many-instance-attributes
                 # CIMClass.tocimxml() always ignores path
                 return _cim_xml.VALUE(obj.tocimxml().toxml())
             if isinstance(obj, list):
-                if obj and isinstance(obj[0], (CIMClassName, CIMInstanceName)):
+                is_refarray = bool(obj) and isinstance(
+                    obj[0], (CIMClassName, CIMInstanceName))
+                for item in obj:
+                    # VALUE.ARRAY and VALUE.REFARRAY cannot be nested and
+                    # cannot mix reference and non-reference items
+                    if isinstance(item, list) or item is not None and \
+                            is_refarray != isinstance(
+                                item, (CIMClassName, CIMInstanceName)):
+                        raise TypeError(
+                            _format("Array method parameter has an item of "
+                                    "type {0} that cannot be represented in "
+                                    "the same array as its first item",
+                                    type(item)))
+                if is_refarray:
                     return _cim_xml.VALUE_REFARRAY([paramvalue(x) for x in obj])
                 return _cim_xml.VALUE_ARRAY([paramvalue(x) for x in obj])
             # The type has been checked in infer_type(), so we can assert
